@@ -5,8 +5,7 @@ import VibeProof.Props.C33
 #print axioms VibeProof.C33.C33_dropped_table_leaves_nothing
 #print axioms VibeProof.C33.C33_recreated_table_is_fresh
 #print axioms VibeProof.C33.C33_add_column_keeps_data
-#print axioms VibeProof.C33.C33_agree_partial
-#print axioms VibeProof.C33.C33_alter_counterexample
-#print axioms VibeProof.C33.C33_alter_blocks_insert
-#print axioms VibeProof.C33.C33_case_variant_index_counterexample
-#print axioms VibeProof.C33.C33_index_lookup_exact
+#print axioms VibeProof.C33.C33_agree
+#print axioms VibeProof.C33.C33_insert_of_declared_width_accepted
+#print axioms VibeProof.C33.C33_alter_keeps_table_usable
+#print axioms VibeProof.C33.C33_index_lookup
